@@ -36,6 +36,7 @@ type ConvSpec struct {
 	FuncNames map[string]int // FUNC texts of map ... | FUNC and default FUNC lines
 	Custom    bool           // uses custom functions / contexts / errors (structural oracles do not apply)
 	CtxRegex  bool           // converter-level arg:context:regex ^ctx
+	EnumExclude []string     // enum:exclude patterns
 	ctxPool   []*Ty
 	patGroups int
 }
@@ -62,6 +63,7 @@ type pgenWeights struct {
 	funcs    int // percent of converters decorated with custom functions, contexts and error results
 	defaults int // percent of decorated struct methods that get a default FUNC
 	smeth    int // percent of decorated struct methods that use a method of the source as a field source
+	enums    int // percent of named basic source types that are enums (have constants)
 }
 
 func (g *pgen) edit(s string) { g.edits = append(g.edits, s) }
@@ -96,7 +98,7 @@ func (g *pgen) newNamed(pkg int, under *Ty, prefix string) int {
 		pkg = 1
 	}
 	id := len(g.p.Named)
-	g.p.Named = append(g.p.Named, &NamedDecl{ID: id, Pkg: pkg, Name: fmt.Sprintf("%s%d", prefix, id), Under: under})
+	g.p.Named = append(g.p.Named, &NamedDecl{ID: id, Pkg: pkg, Name: fmt.Sprintf("%s%d", prefix, id), Under: under, EnumOf: -1})
 	return id
 }
 
@@ -121,7 +123,11 @@ func (g *pgen) srcType(depth int) *Ty {
 	case 0:
 		return tBasic(genBasics[g.r.Intn(len(genBasics))])
 	case 1: // named basic
-		return tNamed(g.newNamed(g.pkg(), tBasic(genBasics[g.r.Intn(len(genBasics))]), "NB"))
+		id := g.newNamed(g.pkg(), tBasic(genBasics[g.r.Intn(len(genBasics))]), "NB")
+		if g.r.Intn(100) < g.weights.enums {
+			g.makeEnum(id)
+		}
+		return tNamed(id)
 	case 2:
 		return tPtr(g.srcType(depth + 1))
 	case 3:
@@ -238,6 +244,9 @@ func (g *pgen) derive(s *Ty, depth int, path string) *Ty {
 				}
 				id := g.newNamed(g.pkg(), tBasic(k), "NB")
 				g.twins[s.ID] = id
+				if len(d.Consts) > 0 {
+					g.deriveEnum(d, g.p.Named[id])
+				}
 				return tNamed(id)
 			}
 		case "struct":
@@ -392,6 +401,11 @@ func (g *pgen) converter(idx int) *ConvSpec {
 		g.twins = map[int]int{}
 		g.edits = nil
 		src := g.srcType(0)
+		if g.weights.enums > 50 && g.r.Intn(100) < 40 { // the method's own signature is an enum pair
+			id := g.newNamed(g.pkg(), tBasic(genBasics[g.r.Intn(len(genBasics))]), "NB")
+			g.makeEnum(id)
+			src = tNamed(id)
+		}
 		tgt := g.derive(src, 0, "")
 		m := &MethodSpec{Name: fmt.Sprintf("M%d", i), Src: src, Tgt: tgt, Fields: map[string]*fieldSet{}}
 		// field settings repairing (or not) the edits on the method's own target struct
@@ -507,6 +521,10 @@ func (g *pgen) converter(idx int) *ConvSpec {
 				}
 			}
 		}
+	}
+	g.enumSettings(c)
+	if g.weights.enums > 0 {
+		c.Custom = true // enum conversions are no structural images
 	}
 	g.decorate(c)
 	return c
